@@ -43,8 +43,9 @@ Proof.
       destruct (Nat.eqb_spec u a); [thsimpl; discriminate|].
       intros Hu. rewrite (Hsl u Hu), N1. apply Hd. exact Hu.
   - destruct (front (s_sleepq st1)) as [f|].
-    + destruct (th_ts (getth st1 f) =? MAX64); intros u Hu; rewrite <- N1; apply Hd; exact Hu.
-    + intros u Hu. rewrite <- N1. apply Hd. exact Hu.
+    + destruct (th_ts (getth st1 f) =? MAX64); intros u Hu;
+        (match goal with |- ?a < _ => change a with (s_now st1) end); rewrite N1; apply Hd; exact Hu.
+    + intros u Hu. (match goal with |- ?a < _ => change a with (s_now st1) end). rewrite N1. apply Hd. exact Hu.
 Qed.
 
 (* ---- delivery of an interrupt ----------------------------------------------------------------------------
